@@ -646,7 +646,7 @@ package genql
 
 //@ func SelectDimension
 //@   safety[C09]
-//@   frame[C09]
+//@   frame[C09,C13]
 //@   ensures no-dimension[C09]: len(dimensions) == 0 ==> err == nil && result == data
 //@   ensures wrong-shape[C09]: len(dimensions) > 0 && !typeis(data, []any) ==> err != nil && result == nil
 //@   ensures index-out-of-range[C09]: len(dimensions) > 0 && typeis(data, []any) && dimensions[0] != nil && dimensions[0].selectorType == INDEX &&
@@ -654,43 +654,43 @@ package genql
 
 //@ func SelectMany
 //@   safety[C09]
-//@   frame[C09]
+//@   frame[C09,C13]
 //@   at-call Unwind assert flatten-one-level-per-further-dimension[C09]: arg1 == len(dimensions) - 1 && arg0 == callresult(SelectDimension, 0).([]any)
 //@   ensures failed[C09]: err != nil ==> result == nil
 //@   ensures not-an-array[C09]: err == nil && !typeis(callresult(SelectDimension, 0), []any) ==> result == callresult(SelectDimension, 0)
 
 //@ func Unwind
 //@   safety[C09]
-//@   frame[C09]
+//@   frame[C09,C13]
 //@   ensures depth-zero[C09]: depth == 0 ==> result == data
 
 //@ func SelectObject
 //@   safety[C09]
-//@   frame[C09]
+//@   frame[C09,C13]
 
 //@ func ReaderExecutor
 //@   safety[C09]
-//@   frame[C09]
+//@   frame[C09,C13]
 //@   ensures no-selector[C09]: len(selectors) == 0 ==> err == nil && result == data
 
 //@ func Reader
 //@   safety[C09]
-//@   frame[C09]
+//@   frame[C09,C13]
 //@   ensures no-selector[C09]: len(selectors) == 0 ==> err == nil && result == data
 //@   ensures null[C09]: len(selectors) > 0 && data == nil ==> err == nil && result == nil
 
 //@ func Mix
 //@   safety[C09]
-//@   frame[C09]
+//@   frame[C09,C13]
 //@ func MixArray
 //@   safety[C09]
-//@   frame[C09]
+//@   frame[C09,C13]
 //@ func MixObject
 //@   safety[C09]
-//@   frame[C09]
+//@   frame[C09,C13]
 //@ func Distinct
 //@   safety[C09]
-//@   frame[C09]
+//@   frame[C09,C13]
 
 //@ func (*IndexSelector).GetType
 //@   ensures field[C09]: result == indexSelector.selectorType
@@ -704,31 +704,31 @@ package genql
 // C09: the selector parser takes arbitrary text
 //@ func ReadIndex
 //@   safety[C09]
-//@   frame[C09]
+//@   frame[C09,C13]
 //@ func ReadRange
 //@   safety[C09]
-//@   frame[C09]
+//@   frame[C09,C13]
 //@ func ParseArray
 //@   safety[C09]
-//@   frame[C09]
+//@   frame[C09,C13]
 //@   ensures shape[C09]: err == nil ==> typeis(result, []*IndexSelector) || typeis(result, KeepDimension)
 //@   ensures failed[C09]: err != nil ==> result == nil
 //@ func ParsePipe
 //@   safety[C09]
-//@   frame[C09]
+//@   frame[C09,C13]
 //@ func ParseSelector
 //@   safety[C09]
-//@   frame[C09]
+//@   frame[C09,C13]
 //@   at-call append assert function-has-a-plain-name[C09]: typeis(appended, TopLevelFunctionSelector) ==> callresult(isFunctionName, 0)
 //@ func isFunctionName
 //@   safety[C09]
 //@   ensures non-empty[C09]: len(name) == 0 ==> !result
 //@ func parsedSelectors
 //@   safety[C09]
-//@   frame[C09]
+//@   frame[C09,C13]
 //@ func ExecReader
 //@   safety[C09]
-//@   frame[C09]
+//@   frame[C09,C13]
 
 // C09: what the steps mean, clause by clause
 //@ func SelectDimension
@@ -767,8 +767,6 @@ package genql
 // every row / item is visited: these loops are left only when their range is exhausted, or by a return
 //@ func ExecDistinct
 //@   loop 0 exhaustive every-row-is-considered[C06]: current
-//@ func (*Query).exec
-//@   loop 0 exhaustive every-source-row-is-filtered[C01]: query.from
 //@ func ExecSelect
 //@   loop 0 exhaustive every-kept-row-is-projected[C02]: current
 //@ func SelectExpr
@@ -914,3 +912,18 @@ package genql
 // C08/C09: mix=> flattens to the bottom: what MixArray keeps as it is, is not an array
 //@ func MixArray
 //@   at-call append:item assert what-is-kept-as-it-is-is-not-an-array[C08,C09]: !typeis(appended, []any)
+
+// C18: UNWIND flattens one level: an element it keeps as it is, is not an array
+//@ func UnwindFunc
+//@   at-call append:item assert what-is-kept-as-it-is-is-not-an-array[C18]: !typeis(appended, []any)
+
+// C14: ONCE runs the function only when the query has nothing memoised under the call's name (a memoised NULL counts)
+//@ func FunExpr
+//@   at-call FuncArgReader assert a-once-call-is-evaluated-only-when-nothing-is-memoised[C14]: execType == "once" ==> !has(query.singletonExecutions, name)
+
+// C03: grouping sees every row that passed WHERE (the scan does not stop early), and every such row is put into a group
+//@ func (*Query).exec
+//@   loop 0 exhaustive every-source-row-is-filtered[C01,C03,C05]: query.from
+//@ func ExecGroupBy
+//@   loop 0 exhaustive every-row-is-grouped[C03]: current
+//@   loop 0 ascending-range rows-are-grouped-in-source-order[C03]: current
